@@ -1,7 +1,7 @@
 (** Evaluator glue for C20: replays on the model what the harness did with the
     real qLogFile / qLogReader and compares the projected observables. *)
 From Coq Require Export Uint63.
-From AGH Require Import Base.Run Model.QLogFile Model.QLogCodec Model.QLogBytes.
+From AGH Require Import Base.Run Model.QLogFile Model.QLog Model.QLogCodec Model.QLogBytes Model.QLogDisk.
 Local Open Scope Z_scope.
 
 (** Byte strings of the byte-level cases arrive packed, seven bytes to a
@@ -51,7 +51,10 @@ Inductive rop :=
   | RRead (obs : option (Z * Z * Z))
   | RReadAll (obs : list (Z * Z * Z))
   (* seekTS: target, class, currentFile after, its position after, seekFellBack *)
-  | RSeek (ts : Z) (code cur pos : Z) (fellback : bool).
+  | RSeek (ts : Z) (code cur pos : Z) (fellback : bool)
+  (* round 8, seekRecord (search.go): target, class (0 nil, 1 not found, 4
+     other), currentFile after, its position after, seekFellBack *)
+  | RSeekRec (ts : Z) (code cur pos : Z) (fellback : bool).
 
 (** Operations on one qLogFile, observed with the strings it returned. *)
 Inductive bop :=
@@ -180,6 +183,13 @@ Fixpoint r_replay (me buf : Z) (ops : list rop) (r : reader) : bool :=
       let (res, r') := reader_seek_ts me ts r in
       (rseek_code res =? code) && (r_cur r' =? c) && (pos (snd (nth_file r' c)) =? p) &&
       Bool.eqb (r_fellback r') fb && r_replay me buf ops r'
+  | RSeekRec ts code c p fb :: ops =>
+      let (code', r') := seek_record_st me buf (Some ts) r in
+      (code' =? code) && (r_cur r' =? c) && (pos (snd (nth_file r' c)) =? p) &&
+      Bool.eqb (r_fellback r') fb &&
+      (* Model/QLog.v's seek_record (the one C07's paging is stated on) says the same *)
+      match seek_record me buf (Some ts) r with Some _ => code =? 0 | None => negb (code =? 0) end &&
+      r_replay me buf ops r'
   end.
 
 (** time.Parse as the table of the case gives it. *)
